@@ -67,4 +67,5 @@ func (a *AggOpPlanner) finalize(ctx *shared.PlannerContext, stream *aggOpStream)
 type aggOpStream struct {
 	labels map[string]string
 	values []float64
+	ts     []int64
 }
